@@ -22,6 +22,7 @@ import (
 	"verif/lin"
 	"verif/sched"
 	"verif/vk"
+	"verif/world"
 )
 
 var ctx = context.Background()
@@ -205,6 +206,14 @@ func TestCheck(t *testing.T) {
 		if vk.Thorough() {
 			sched.Explore(t, idxsets.QueriedScenario("C14|index-queried|", s, 2, 1, 2, prefix), res, end)
 		}
+	}
+	// the row-backed index (no corpus) queried without the index lock while it is fed
+	owner := world.A().Pub.Ref
+	for _, s := range idxsets.Sets() {
+		if len(s.Canon) > 5 || len(s.Absent) > 0 || !strings.Contains(s.Name, "delete") && s.Name != "key+pn+claim" && s.Name != "two-signers" {
+			continue
+		}
+		sched.Explore(t, idxsets.RowQueriedScenario("C14|index-rows-queried|", s, owner, 2, idxsets.RowPrefixObservations(s, owner)), res, end)
 	}
 	compact(res)
 	res.Write()
